@@ -385,3 +385,124 @@ def nontrivial_key(seq, ob):
         if inv >= 2 or not ok:
             nt = True
     return common.digest([[o["trace"], o["delivery"]] for o in ob]) if nt else None
+
+
+# ------------------------------------------------------------------------------------------------
+# generic check for a retry-loop property
+# ------------------------------------------------------------------------------------------------
+def shrink_seq(pid, seq, fails):
+    """keep the property failing while making the script smaller: single call, no hook faults,
+    fewer operations.  fails(list of seqs) -> list of bool."""
+    import copy
+    cur = seq
+    # 1. a single call of the sequence
+    if len(cur["calls"]) > 1:
+        cands = []
+        for j in range(len(cur["calls"])):
+            s = copy.deepcopy(cur)
+            s["calls"] = [s["calls"][j]]
+            cands.append(s)
+        for s, bad in zip(cands, fails(cands)):
+            if bad:
+                cur = s
+                break
+    # 2. simplifications tried one at a time
+    def variants(s):
+        out = []
+        for j, c in enumerate(s["calls"]):
+            for key in ("metric_raises", "log_raises", "bs_raises", "abort", "sleep_cancel", "bs_cancel"):
+                if c["env"][key]:
+                    t = copy.deepcopy(s); t["calls"][j]["env"][key] = []; out.append(t)
+            for flag in ("has_log", "has_opname", "capture_tl", "bs_c", "bs_p", "sleeper_c", "has_abort", "handler_c"):
+                if c["cfg"][flag] and flag not in POLICY_FIELDS:
+                    t = copy.deepcopy(s); t["calls"][j]["cfg"][flag] = False; out.append(t)
+            if c["gap"]:
+                t = copy.deepcopy(s); t["calls"][j]["gap"] = 0; out.append(t)
+            if len(c["env"]["ops"]) > 1:
+                t = copy.deepcopy(s); t["calls"][j]["env"]["ops"] = c["env"]["ops"][:-1]; out.append(t)
+            for i, op in enumerate(c["env"]["ops"]):
+                if op[1]:
+                    t = copy.deepcopy(s); t["calls"][j]["env"]["ops"][i][1] = 0; out.append(t)
+        if s["t0"]:
+            t = copy.deepcopy(s); t["t0"] = 0; out.append(t)
+        return out
+
+    for _ in range(6):
+        cands = variants(cur)
+        if not cands:
+            break
+        res = fails(cands)
+        nxt = next((s for s, bad in zip(cands, res) if bad), None)
+        if nxt is None:
+            break
+        cur = nxt
+    return cur
+
+
+def run_runner_check(chk, pid, proj, opts, n_quick=400, n_thorough=6000, extra_seqs=None, oracle_pid=None,
+                     keep_result=None):
+    import oracles
+    oracle_pid = oracle_pid or pid
+    theorems_ok = chk.check_theorems()
+    seqs = [s for s in load_corpus(pid)]
+    n = n_quick if chk.tier == "quick" else n_thorough
+    seqs += [gen_sequence(chk.rng, opts) for _ in range(n)]
+    if extra_seqs:
+        seqs += extra_seqs
+    obs = run_impl(seqs, jobs=min(16, common.NPROC))
+    drv = [(i, o["delivery"]) for i, ob in enumerate(obs) for o in ob if o["delivery"][0] == "driver_error"]
+    if drv:
+        raise common.DriverError("runner_driver failed on a script: " + str(drv[0][1][1])[-1500:])
+    bad = []
+    if oracle_pid in oracles.ORACLES:
+        bad = [(i, m) for i, (s, o) in enumerate(zip(seqs, obs)) for m in [oracles.check_seq(oracle_pid, s, o)] if m]
+    failing, errors = [], []
+    if theorems_ok:
+        failing, errors = compare_in_coq(chk, seqs, obs, proj)
+    st = stats(seqs, obs)
+    distinct = {k for k in (nontrivial_key(s, o) for s, o in zip(seqs, obs)) if k}
+    chk.coverage.update(
+        evaluations=len(seqs), distinct_nontrivial=len(distinct),
+        traces_validated_against_impl=0 if errors else st["calls"],
+        rule="call sequences on one policy object (1-4 calls, optional shared Budget) with scripted operation outcomes, "
+        "durations, abort answers, strategy returns, handler decisions, sleeper overshoot and hook faults, run through "
+        "Retry/AsyncRetry .call/.execute on /repo; non-trivial = some call has >= 2 invocations or does not end in "
+        "success; distinct by the full observed trace + delivery",
+        samples=[{"script": seqs[i], "observed": obs[i]} for i in ([len(seqs) - 1] if seqs else [])],
+        distribution=st, projection=proj,
+    )
+    if errors:
+        chk.violation({"kind": "correspondence-error", "what": "cases file did not evaluate", "errors": errors[:3]}, no_input=True)
+
+    def fails_batch(cands):
+        ob = run_impl(cands, jobs=4)
+        return [oracles.check_seq(oracle_pid, s, o) is not None for s, o in zip(cands, ob)]
+
+    if keep_result is not None:
+        keep_result.update(seqs=seqs, obs=obs, bad=bad, failing=failing)
+    if bad:
+        i, msg = bad[0]
+        small = shrink_seq(oracle_pid, seqs[i], fails_batch)
+        so = run_impl([small], jobs=1)[0]
+        chk.violation({"kind": "oracle", "what": oracles.check_seq(oracle_pid, small, so) or msg, "script": small,
+                       "observed": so, "driver": "runner_driver", "oracle": oracle_pid, "also_failing": len(bad),
+                       "model_disagrees_on_original": i in failing,
+                       "model": model_eval(chk, small, so) if theorems_ok else None})
+    elif failing:
+        i = failing[0]
+        chk.violation({"kind": "correspondence", "what": f"Corr.rcase_ok {proj}: the implementation's observable behaviour "
+                       f"differs from the Coq model of the retry loop on the events {pid} is about, so the theorems of "
+                       f"Props/{pid}.v no longer describe this code; the property oracle found no violated clause",
+                       "script": seqs[i], "observed": obs[i], "driver": "runner_driver", "oracle": oracle_pid,
+                       "disagreements": len(failing), "model": model_eval(chk, seqs[i], obs[i])}, no_input=True)
+    return seqs, obs
+
+
+def replay_runner(path):
+    import oracles
+    r = json.load(open(path))
+    so = run_impl([r["script"]], jobs=1)[0]
+    msg = oracles.check_seq(r.get("oracle", r.get("property")), r["script"], so) if r.get("oracle", r.get("property")) in oracles.ORACLES else None
+    print(json.dumps(so)[:3000])
+    print("oracle:", msg or "holds")
+    return 1 if msg else 0
